@@ -155,8 +155,9 @@ def run_entry(entry, X, metric_name, rng, p, calls):
         for g in inds:
             t = int(np.searchsorted(starts, g, side='right') - 1)
             pairs.append([t, int(g - starts[t])])
+        xl = lens if rng.random() < 0.5 else np.array(lens)
         return do(kmedoids.kmedoids, X, m, cluster_center_inds=pairs,
-                  X_lengths=lens, n_iters=iters, random_state=seed), k
+                  X_lengths=xl, n_iters=iters, random_state=seed), k
     # a consistent (assignments, distances) state for the chosen centers
     D = np.stack([ref(X, X[i]) for i in inds], axis=1)
     a0 = D.argmin(axis=1)
